@@ -1036,3 +1036,449 @@ Proof.
 Qed.
 
 End FixedT2.
+
+Section FixedT3.
+Variable cf : config.
+Hypothesis Hfix : cf_fix cf = all_fixed.
+Let S1 := all_specs cf Hfix.
+Let S2 := all_specs2 cf Hfix.
+
+Definition ITpost (RC RF : list tok) : unit -> state -> Prop := fun _ s' => Inv s' /\ TokInv s' RC RF.
+
+Lemma destroy_loop_tok f n s RC RF : Inv s -> TokInv s RC RF ->
+  safe (destroy_loop_fixed cf f n) s (ITpost RC RF).
+Proof.
+  pose proof (S1 f) as IH. pose proof (S2 f) as IH2.
+  revert s. induction n as [|n IHn]; intros s I T; simpl; [apply safe_fail|].
+  apply safe_bind. apply safe_get.
+  destruct (st_lists s) as [|[|qo l] r] eqn:El; try (apply safe_ret; split; auto).
+  assert (Hl : In qo (linked s)) by (unfold linked; rewrite El; simpl; left; reflexivity).
+  apply safe_bind.
+  eapply safe_mono; [apply safe_both; [apply (sp_complete_query _ _ IH qo _ s (inv_weaken _ _ I) Hl)
+                                      |apply (tp_complete_query _ _ IH2 qo _ s RC RF (inv_weaken _ _ I) Hl T)]|].
+  intros [] s1 [[I1 _] T1]. apply IHn; auto.
+Qed.
+
+Lemma destroy_conns_tok f n s RC RF : Inv s -> TokInv s RC RF -> safe (destroy_conns cf f n) s (ITpost RC RF).
+Proof.
+  pose proof (S1 f) as IH. pose proof (S2 f) as IH2.
+  revert s. induction n as [|n IHn]; intros s I T; simpl; [apply safe_fail|].
+  apply safe_bind. apply safe_get.
+  destruct (st_conns s) as [|co0 r] eqn:Ec; [apply safe_ret; split; auto|].
+  apply safe_bind. apply safe_peek.
+  destruct (hd_error (st_tape s)) as [e|]; [|apply safe_fail].
+  destruct e; try apply safe_fail.
+  destruct (find_conn_by_sock_ok _ s sock I) as [r0 [E1 Hr]].
+  apply safe_bind. eapply safe_of_run; [exact E1|].
+  destruct r0 as [co|]; [|apply safe_fail].
+  destruct (Hr _ eq_refl) as [Hin [c [Hc Hncl]]].
+  apply safe_bind.
+  eapply safe_mono; [apply safe_both; [apply (sp_close_connection _ _ IH co ARES_SUCCESS s c I Hc)
+                                      |apply (tp_close_connection _ _ IH2 co ARES_SUCCESS s c RC RF I Hc T)]|].
+  intros [] s1 [[I1 _] T1]. apply IHn; auto.
+Qed.
+
+(* ares_destroy: afterwards no query is linked (the assert) *)
+Lemma held_nil s : linked s = [] -> held s = [].
+Proof. intros E. unfold held. rewrite E. reflexivity. Qed.
+
+(* closing a connection that has no queries runs no callback: the lists are untouched *)
+Lemma close_idle_linked f co st s c : heap_ok s -> cell_of s co = Some (CConn c) -> c_queries c = [] ->
+  safe (close_connection cf f co st) s (fun _ s' => linked s' = linked s).
+Proof.
+  intros Hh Hc Hq. destruct f as [|f]; simpl; [apply safe_fail|].
+  apply safe_bind. eapply safe_get_conn; [exact Hh|exact Hc|].
+  apply safe_bind. apply safe_modify.
+  set (s1 := set_conns (remove_nat co (st_conns s)) s).
+  assert (Hh1 : heap_ok s1) by exact Hh.
+  assert (Hc1 : cell_of s1 co = Some (CConn c)) by exact Hc.
+  apply safe_bind.
+  assert (R : safe (requeue_conn_queries cf f f co st) s1 (fun _ s' => s' = s1)).
+  { destruct f as [|f']; simpl; [apply safe_fail|].
+    apply safe_bind. eapply safe_get_conn; [exact Hh1|exact Hc1|]. rewrite Hq. apply safe_ret. reflexivity. }
+  eapply safe_mono; [exact R|]. intros [] s2 ->.
+  apply safe_bind. eapply safe_get_conn; [exact Hh1|exact Hc1|].
+  apply safe_bind. apply safe_expect'; [right; right; eexists; reflexivity|]. intros l.
+  destruct (fx_connread (cf_fix cf) && c_reading c).
+  - eapply safe_store; [exact Hh1|exact Hc1|]. reflexivity.
+  - eapply safe_free; [exact Hh1|exact Hc1|]. reflexivity.
+Qed.
+
+Lemma destroy_conns_full f n s RC RF : linked s = [] -> Inv s -> TokInv s RC RF ->
+  safe (destroy_conns cf f n) s (fun _ s' => linked s' = [] /\ Inv s' /\ TokInv s' RC RF).
+Proof.
+  pose proof (S1 f) as IH. pose proof (S2 f) as IH2.
+  revert s. induction n as [|n IHn]; intros s El I T; simpl; [apply safe_fail|].
+  apply safe_bind. apply safe_get.
+  destruct (st_conns s) as [|co0 r] eqn:Ec; [apply safe_ret; auto|].
+  apply safe_bind. apply safe_peek.
+  destruct (hd_error (st_tape s)) as [e|]; [|apply safe_fail].
+  destruct e; try apply safe_fail.
+  destruct (find_conn_by_sock_ok _ s sock I) as [r0 [E1 Hr]].
+  apply safe_bind. eapply safe_of_run; [exact E1|].
+  destruct r0 as [co|]; [|apply safe_fail].
+  destruct (Hr _ eq_refl) as [Hin [c [Hc Hncl]]].
+  assert (Hq : c_queries c = []).
+  { destruct (c_queries c) as [|qo l] eqn:Eq; auto. exfalso.
+    assert (Hqo : In qo (c_queries c)) by (rewrite Eq; left; reflexivity).
+    destruct (inv_connq _ _ I _ _ _ Hc Hqo) as [Hl _]. rewrite El in Hl. destruct Hl. }
+  apply safe_bind.
+  eapply safe_mono; [apply safe_both; [apply safe_both;
+       [apply (sp_close_connection _ _ IH co ARES_SUCCESS s c I Hc)
+       |apply (tp_close_connection _ _ IH2 co ARES_SUCCESS s c RC RF I Hc T)]
+       |apply (close_idle_linked f co ARES_SUCCESS s c (inv_heap _ _ I) Hc Hq)]|].
+  intros [] s1 [[[I1 _] T1] El1]. apply IHn; auto. rewrite El1. exact El.
+Qed.
+
+Lemma destroy_tok f s RC RF : Inv s -> TokInv s RC RF ->
+  safe (destroy cf f) s (fun _ s' => linked s' = [] /\ Inv s' /\ TokInv s' RC RF).
+Proof.
+  intros I T. unfold destroy.
+  apply safe_bind. apply safe_modify.
+  set (s1 := set_destroying true s).
+  assert (E1 : core_eq s s1) by apply core_eq_set_destroying.
+  assert (I1 : Inv s1) by (apply (inv_core _ _ _ E1); auto).
+  assert (T1 : TokInv s1 RC RF) by (apply (tokinv_same s); [reflexivity|reflexivity|reflexivity|exact T]).
+  apply safe_bind. apply safe_get. rewrite (fx_unlink_true cf Hfix).
+  apply safe_bind. eapply safe_mono; [apply (destroy_loop_tok f f s1 RC RF I1 T1)|].
+  intros [] s2 [I2 T2]. apply safe_bind. apply safe_get.
+  destruct (concat (st_lists s2)) as [|x l] eqn:El; [|apply safe_fail].
+  destruct (st_byqid s2); [|apply safe_fail]. destruct (st_bytmo s2); [|apply safe_fail]. simpl.
+  apply destroy_conns_full; auto.
+Qed.
+
+Lemma process_writes_tok f socks s RC RF : Inv s -> TokInv s RC RF -> safe (process_writes cf f socks) s (ITpost RC RF).
+Proof.
+  pose proof (S1 f) as IH. pose proof (S2 f) as IH2.
+  revert s. induction socks as [|sock rest IHr]; intros s I T; simpl; [apply safe_ret; split; auto|].
+  destruct (find_conn_by_sock_ok _ s sock I) as [r0 [E1 Hr]].
+  apply safe_bind. eapply safe_of_run; [exact E1|]. apply safe_bind.
+  destruct r0 as [co|]; [|apply safe_ret; apply IHr; auto].
+  destruct (Hr _ eq_refl) as [Hin [c [Hc Hncl]]].
+  apply safe_bind. eapply safe_get_conn; [exact (inv_heap _ _ I)|exact Hc|].
+  apply safe_bind. apply safe_pop. intros e rest0 Et. destruct e; try apply safe_fail.
+  set (s1 := set_tape rest0 s).
+  assert (E2 : core_eq s s1) by apply core_eq_set_tape.
+  assert (I1 : Inv s1) by (apply (inv_core _ _ _ E2); auto).
+  assert (T1 : TokInv s1 RC RF) by (apply tokinv_set_tape; exact T).
+  destruct (negb (Nat.eqb sock0 sock)); [apply safe_fail|].
+  destruct (zeqb rc ARES_SUCCESS).
+  - apply safe_ret. apply IHr; auto.
+  - eapply safe_mono; [apply safe_both; [apply (sp_handle_conn_error _ _ IH co true rc s1 c I1 Hc)
+                                        |apply (tp_handle_conn_error _ _ IH2 co true rc s1 c RC RF I1 Hc T1)]|].
+    intros [] s2 [[I2 _] T2]. apply IHr; auto.
+Qed.
+
+Lemma process_reads_tok f socks s RC RF : Inv s -> TokInv s RC RF -> safe (process_reads cf f socks) s (ITpost RC RF).
+Proof.
+  revert s. induction socks as [|sock rest IHr]; intros s I T; simpl; [apply safe_ret; split; auto|].
+  destruct (find_conn_by_sock_ok _ s sock I) as [r0 [E1 Hr]].
+  apply safe_bind. eapply safe_of_run; [exact E1|]. apply safe_bind.
+  destruct r0 as [co|]; [|apply safe_ret; apply IHr; auto].
+  destruct (Hr _ eq_refl) as [Hin [c [Hc Hncl]]].
+  eapply safe_mono; [apply (read_answers_tok cf Hfix f co s c RC RF I Hc Hin T)|].
+  intros [] s1 [I1 T1]. apply IHr; auto.
+Qed.
+
+Lemma process_timeouts_tok f n s RC RF : Inv s -> TokInv s RC RF -> safe (process_timeouts cf f n) s (ITpost RC RF).
+Proof.
+  pose proof (S1 f) as IH. pose proof (S2 f) as IH2.
+  revert s. induction n as [|n IHn]; intros s I T; simpl; [apply safe_fail|].
+  apply safe_bind. apply safe_peek. apply safe_bind. apply safe_peek2.
+  destruct (hd_error (st_tape s)) as [e|]; [|apply safe_ret; split; auto].
+  destruct e; try (apply safe_ret; split; auto).
+  assert (G : safe (let! s0 := get in
+                    match timeout_victim (st_tape s0) with
+                    | Some qid =>
+                        match lookup qid (st_byqid s0) with
+                        | Some qo =>
+                            if negb (memb qo (st_bytmo s0)) then fail EDESYNC
+                            else let! q := get_query qo in
+                                 match q_conn q with
+                                 | Some co => let! _ := get_conn co in ret tt
+                                 | None => fail EINTERNAL end;;
+                                 expect_TS;;
+                                 (let! _ := requeue_query cf f qo ARES_ETIMEOUT true false (res ARES_ETIMEOUT) in
+                                  process_timeouts cf f n)
+                        | None => fail EDESYNC end
+                    | None => fail EDESYNC end) s (ITpost RC RF)).
+  { apply safe_bind. apply safe_get.
+    destruct (timeout_victim (st_tape s)) as [qid|]; [|apply safe_fail].
+    destruct (lookup qid (st_byqid s)) as [qo|] eqn:Lk; [|apply safe_fail].
+    destruct (memb qo (st_bytmo s)) eqn:Mb; simpl; [|apply safe_fail].
+    apply memb_In in Mb.
+    destruct (inv_bytmo _ _ I _ Mb) as [Hl [q [co [c [Hq [Hqc [Hc _]]]]]]].
+    apply safe_bind. eapply safe_get_query; [exact (inv_heap _ _ I)|exact Hq|].
+    rewrite Hqc. apply safe_bind. apply safe_bind. eapply safe_get_conn; [exact (inv_heap _ _ I)|exact Hc|].
+    apply safe_ret. apply safe_bind. apply safe_expect'; [left; reflexivity|]. intros l1.
+    assert (E1 : core_eq s (set_tape l1 s)) by apply core_eq_set_tape.
+    apply safe_bind.
+    eapply safe_mono; [apply safe_both;
+       [apply (sp_requeue_query _ _ IH qo ARES_ETIMEOUT true false _ (set_tape l1 s));
+          [apply inv_weaken; apply (inv_core _ _ _ E1); auto|exact Hl]
+       |apply (tp_requeue_query _ _ IH2 qo ARES_ETIMEOUT true false _ (set_tape l1 s) RC RF);
+          [apply inv_weaken; apply (inv_core _ _ _ E1); auto|exact Hl|apply tokinv_set_tape; exact T]]|].
+    intros z s2 [[I2 _] T2]. apply IHn; auto. }
+  destruct (hd_error (tl (st_tape s))) as [e2|]; [|exact G].
+  destruct e2; try exact G. apply safe_ret. split; auto.
+Qed.
+
+Lemma process_fds_tok f w r s RC RF : Inv s -> TokInv s RC RF -> safe (process_fds cf f w r) s (ITpost RC RF).
+Proof.
+  intros I T. pose proof (S1 f) as IH. pose proof (S2 f) as IH2. unfold process_fds.
+  apply safe_bind. eapply safe_mono; [apply (process_writes_tok f w s RC RF I T)|]. intros [] s1 [I1 T1].
+  apply safe_bind. eapply safe_mono; [apply (process_reads_tok f r s1 RC RF I1 T1)|]. intros [] s2 [I2 T2].
+  apply safe_bind.
+  eapply safe_mono; [apply safe_both; [apply (sp_check_cleanup _ _ IH s2 I2)|apply (tp_check_cleanup _ _ IH2 s2 RC RF I2 T2)]|].
+  intros [] s3 [[I3 _] T3]. apply process_timeouts_tok; auto.
+Qed.
+
+End FixedT3.
+
+(* ---------------------------------------------------------------------------------- *)
+(* Histories: at most once, exactly once when the channel has been destroyed            *)
+(* ---------------------------------------------------------------------------------- *)
+Definition input_toks (i : input) : list tok :=
+  match i with IApi c => call_toks c | IOnCb _ c => call_toks c | _ => [] end.
+Definition hist_toks (h : list (input * list tev)) : list tok := flat_map (fun it => input_toks (fst it)) h.
+
+Lemma tokinv_drop_rf s RC RF X : TokInv s RC (X ++ RF) -> TokInv s RC RF.
+Proof.
+  intros [H1 H2 H3 H4 H5]. constructor; auto.
+  rewrite !app_assoc in H1. apply NoDup_app_iff in H1. destruct H1 as [Ha [Hb Hc]].
+  apply NoDup_app_iff in Ha. destruct Ha as [Ha1 [Ha2 Ha3]].
+  rewrite app_assoc. apply NoDup_app_iff. repeat split; auto.
+  intros x Hx Hx'. apply (Hc x); auto. apply in_or_app. left. exact Hx.
+Qed.
+
+Lemma perm_swap3 {A} (a b c : list A) : Permutation (a ++ b ++ c) (b ++ a ++ c).
+Proof. rewrite !app_assoc. apply Permutation_app_tail. apply Permutation_app_comm. Qed.
+
+Lemma tokinv_add_script s t c RC RF : TokInv s RC (call_toks c ++ RF) -> TokInv (add_script t c s) RC RF.
+Proof.
+  intros T. unfold add_script. destruct (delivered t s).
+  - eapply tokinv_drop_rf; eauto.
+  - destruct T as [H1 H2 H3 H4 H5]. constructor; auto.
+    + change (reqd (set_scripts _ s)) with (reqd s).
+      unfold futr. simpl.
+      eapply Permutation_NoDup; [|exact H1]. apply Permutation_app_head.
+      destruct (lookup t (st_scripts s)) as [l|] eqn:E.
+      * unfold futr. rewrite (futr_remove_key t (st_scripts s) l H4 E).
+        assert (Ec : calls_toks (l ++ [c]) = calls_toks l ++ call_toks c).
+        { unfold calls_toks. rewrite flat_map_app. simpl. rewrite app_nil_r. reflexivity. }
+        rewrite Ec. rewrite <- !app_assoc. apply Permutation_app_head.
+        apply perm_swap3.
+      * assert (Hrm : remove_key t (st_scripts s) = st_scripts s).
+        { clear -E. induction (st_scripts s) as [|[a b] l IH]; simpl in *; auto.
+          destruct (Nat.eqb t a); [discriminate|]. f_equal. apply IH. exact E. }
+        rewrite Hrm. unfold calls_toks. simpl. rewrite app_nil_r. rewrite <- app_assoc.
+        apply perm_swap3.
+    + simpl. destruct (remove_key_keys t (st_scripts s) H4) as [Hk1 Hk2]. constructor; auto.
+Qed.
+
+Section Top.
+Variable cf : config.
+Hypothesis Hfix : cf_fix cf = all_fixed.
+
+Lemma step_tok fuel i tape s RF : Inv s -> nohost_input i -> i <> IDestroy -> TokInv s [] (input_toks i ++ RF) ->
+  safe (step cf fuel i tape) s (fun _ s' => Inv s' /\ TokInv s' [] RF).
+Proof.
+  intros I Hi Hnd T. pose proof (all_specs cf Hfix fuel) as IH. pose proof (all_specs2 cf Hfix fuel) as IH2.
+  unfold step.
+  apply safe_bind. apply safe_modify.
+  set (s1 := set_tape tape s).
+  assert (E1 : core_eq s s1) by apply core_eq_set_tape.
+  assert (I1 : Inv s1) by (apply (inv_core _ _ _ E1); auto).
+  assert (T1 : TokInv s1 [] (input_toks i ++ RF)) by (apply tokinv_set_tape; exact T).
+  assert (Fin : forall s2, Inv s2 -> TokInv s2 [] RF ->
+            safe (let! s0 := get in match st_tape s0 with [] => ret tt | _ :: _ => fail EDESYNC end) s2
+                 (fun _ s' => Inv s' /\ TokInv s' [] RF)).
+  { intros s2 I2 T2. apply safe_bind. apply safe_get. destruct (st_tape s2); [apply safe_ret; auto|apply safe_fail]. }
+  apply safe_bind.
+  destruct i as [c|t c|w r|]; [| | |contradiction].
+  - assert (Dflt : safe (api cf fuel c) s1 (fun _ s0 => safe (let! s3 := get in match st_tape s3 with [] => ret tt | _ :: _ => fail EDESYNC end) s0
+                         (fun _ s' => Inv s' /\ TokInv s' [] RF))).
+    { eapply safe_mono; [apply safe_both; [apply (sp_api _ _ IH c s1 I1 Hi)|apply (tp_api _ _ IH2 c s1 [] RF I1 Hi T1)]|].
+      intros [] s2 [[I2 _] T2]. apply Fin; auto. }
+    destruct c; try exact Dflt.
+    apply safe_bind. apply safe_emit.
+    set (s2 := set_trace (EvCancelBegin :: st_trace s1) s1).
+    assert (E2 : core_eq s1 s2) by apply core_eq_set_trace.
+    assert (I2 : Inv s2) by (apply (inv_core _ _ _ E2); auto).
+    assert (T2 : TokInv s2 [] RF).
+    { apply tokinv_emit_other; try (intros; discriminate); try discriminate. exact T1. }
+    apply safe_bind.
+    eapply safe_mono; [apply safe_both; [apply (sp_cancel _ _ IH s2 I2)|apply (tp_cancel _ _ IH2 s2 [] RF I2 T2)]|].
+    intros [] s3 [[I3 _] T3]. apply safe_emit.
+    apply Fin.
+    + apply (inv_core _ _ _ (core_eq_set_trace _ s3)); auto.
+    + apply tokinv_emit_other; try (intros; discriminate); try discriminate. exact T3.
+  - apply safe_modify. apply Fin; [apply add_script_inv; auto|apply tokinv_add_script; exact T1].
+  - eapply safe_mono; [apply (process_fds_tok cf Hfix fuel w r s1 [] RF I1 T1)|].
+    intros [] s2 [I2 T2]. apply Fin; auto.
+Qed.
+
+(* the state after ares_destroy returned *)
+Definition counts_equal (tr : list event) : Prop := forall t, count_cb tr t = count_req tr t.
+
+Record Done (s : state) : Prop := {
+  dn_tr : exists tr0, st_trace s = EvDestroyEnd :: tr0
+            /\ (forall e, In e tr0 -> e <> EvDestroyEnd /\ e <> EvEnd)
+            /\ at_most_once (rev tr0) /\ counts_equal tr0
+}.
+
+Lemma count_perm_cb tr t : count_cb tr t = count_occ Nat.eq_dec (cb_toks tr) t.
+Proof.
+  unfold count_cb, cb_toks. induction tr as [|e tr IH]; simpl; auto.
+  destruct e; simpl; auto. destruct (Nat.eq_dec t0 t) as [->|Hne].
+  - rewrite Nat.eqb_refl. simpl. f_equal. exact IH.
+  - assert (E : Nat.eqb t t0 = false) by (apply Nat.eqb_neq; auto). rewrite E. exact IH.
+Qed.
+Lemma count_perm_req tr t : count_req tr t = count_occ Nat.eq_dec (req_toks tr) t.
+Proof.
+  unfold count_req, req_toks. induction tr as [|e tr IH]; simpl; auto.
+  destruct e; simpl; auto. destruct (Nat.eq_dec t0 t) as [->|Hne].
+  - rewrite Nat.eqb_refl. simpl. f_equal. exact IH.
+  - assert (E : Nat.eqb t t0 = false) by (apply Nat.eqb_neq; auto). rewrite E. exact IH.
+Qed.
+
+Lemma destroy_step_tok fuel tape s RF : Inv s -> TokInv s [] RF ->
+  safe (step cf fuel IDestroy tape) s (fun _ s' => Done s').
+Proof.
+  intros I T. unfold step.
+  apply safe_bind. apply safe_modify.
+  set (s1 := set_tape tape s).
+  assert (E1 : core_eq s s1) by apply core_eq_set_tape.
+  assert (I1 : Inv s1) by (apply (inv_core _ _ _ E1); auto).
+  assert (T1 : TokInv s1 [] RF) by (apply tokinv_set_tape; exact T).
+  apply safe_bind. apply safe_bind. apply safe_emit.
+  set (s2 := set_trace (EvDestroyBegin :: st_trace s1) s1).
+  assert (E2 : core_eq s1 s2) by apply core_eq_set_trace.
+  assert (I2 : Inv s2) by (apply (inv_core _ _ _ E2); auto).
+  assert (T2 : TokInv s2 [] RF).
+  { apply tokinv_emit_other; try (intros; discriminate); try discriminate. exact T1. }
+  apply safe_bind. eapply safe_mono; [apply (destroy_tok cf Hfix fuel s2 [] RF I2 T2)|].
+  intros [] s3 [El3 [I3 T3]]. apply safe_emit.
+  apply safe_bind. apply safe_get. simpl.
+  destruct (st_tape s3); [|apply safe_fail]. apply safe_ret.
+  constructor. exists (st_trace s3). split; [reflexivity|].
+  destruct T3 as [H1 H2 H3 H4 H5]. split; [exact H5|]. split; [exact H3|].
+  intros t. rewrite count_perm_cb, count_perm_req.
+  rewrite (held_nil s3 El3) in H2. simpl in H2. rewrite app_nil_r in H2.
+  symmetry. apply Permutation_count_occ. exact H2.
+Qed.
+
+Lemma run_from_tok fuel h s RF : Inv s -> Forall (fun it => nohost_input (fst it)) h ->
+  TokInv s [] (hist_toks h ++ RF) ->
+  safe (run_from cf fuel h) s (fun d s' => if d then Done s' else Inv s' /\ TokInv s' [] RF).
+Proof.
+  revert s. induction h as [|[i tape] rest IHh]; intros s I Hh T; simpl.
+  - apply safe_ret. simpl in T. auto.
+  - inversion Hh; subst. simpl in T. unfold hist_toks in T. simpl in T. rewrite <- app_assoc in T.
+    fold (hist_toks rest) in T.
+    assert (G : i <> IDestroy -> safe (step cf fuel i tape;; run_from cf fuel rest) s
+                 (fun d s' => if d then Done s' else Inv s' /\ TokInv s' [] RF)).
+    { intros Hnd. apply safe_bind.
+      eapply safe_mono; [apply (step_tok fuel i tape s (hist_toks rest ++ RF) I); auto|].
+      intros [] s1 [I1 T1]. apply IHh; auto. }
+    destruct i; try (apply G; discriminate).
+    apply safe_bind. simpl in T.
+    eapply safe_mono; [apply (destroy_step_tok fuel tape s (hist_toks rest ++ RF) I T)|].
+    intros [] s1 D1. apply safe_ret. exact D1.
+Qed.
+
+End Top.
+
+Lemma init_tokinv RF : NoDup RF -> TokInv init_state [] RF.
+Proof.
+  intros H. constructor.
+  - simpl. exact H.
+  - simpl. constructor.
+  - unfold amo. simpl. intros pre t st post E. destruct pre; discriminate.
+  - simpl. constructor.
+  - simpl. intros e [].
+Qed.
+
+Lemma split_tail2 {A} (l : list A) a b pre e post :
+  l ++ [a; b] = pre ++ e :: post ->
+  (exists post', l = pre ++ e :: post') \/ (pre = l /\ e = a) \/ (pre = l ++ [a] /\ e = b).
+Proof.
+  revert pre. induction l as [|x l IH]; intros pre E; simpl in *.
+  - destruct pre as [|p pre]; simpl in E.
+    + inversion E; subst. right; left; auto.
+    + inversion E; subst. destruct pre as [|p' pre]; simpl in *.
+      * inversion H1; subst. right; right; auto.
+      * inversion H1. destruct pre; discriminate.
+  - destruct pre as [|p pre]; simpl in E.
+    + inversion E; subst. left. exists l. reflexivity.
+    + inversion E; subst. destruct (IH pre H1) as [[post' Hp]|[[Hp He]|[Hp He]]].
+      * left. exists post'. rewrite Hp. reflexivity.
+      * right; left. subst. auto.
+      * right; right. subst. auto.
+Qed.
+
+(* the final trace *)
+Lemma done_final s : Done s ->
+  let tr := rev (EvEnd :: st_trace s) in
+  at_most_once tr /\ none_after_destroy tr /\ complete_at_destroy tr.
+Proof.
+  intros [[tr0 [Et [Hlive [Hamo Hcnt]]]]] tr. unfold tr. rewrite Et. simpl.
+  rewrite <- app_assoc. simpl.
+  (* tr = rev tr0 ++ [EvDestroyEnd; EvEnd] *)
+  assert (Hlive' : forall e, In e (rev tr0) -> e <> EvDestroyEnd /\ e <> EvEnd).
+  { intros e He. apply Hlive. apply in_rev. exact He. }
+  pose proof (fun pre e post => split_tail2 (rev tr0) EvDestroyEnd EvEnd pre e post) as Split.
+  repeat split.
+  - intros pre t st post E. destruct (Split _ _ _ E) as [[post' Hp]|[[_ He]|[_ He]]]; try discriminate.
+    eapply Hamo. exact Hp.
+  - intros pre t st post E Hin. destruct (Split _ _ _ E) as [[post' Hp]|[[_ He]|[_ He]]]; try discriminate.
+    destruct (Hlive' EvDestroyEnd) as [Hx _]; [rewrite Hp; apply in_or_app; left; exact Hin|]. apply Hx. reflexivity.
+  - intros pre e post E He t Ht. destruct (Split _ _ _ E) as [[post' Hp]|[[Hp _]|[Hp _]]].
+    + exfalso. assert (Hin : In e (rev tr0)) by (rewrite Hp; apply in_or_app; right; left; reflexivity).
+      destruct (Hlive' _ Hin). destruct He; contradiction.
+    + subst pre. rewrite count_cb_rev, count_req_rev. apply Hcnt.
+    + subst pre. unfold count_cb, count_req. rewrite !filter_app, !app_length. simpl. rewrite !Nat.add_0_r.
+      fold (count_cb (rev tr0) t). fold (count_req (rev tr0) t). rewrite count_cb_rev, count_req_rev. apply Hcnt.
+Qed.
+
+Theorem run_trace_ok cf fuel h final tr :
+  cf_fix cf = all_fixed -> Forall (fun it => nohost_input (fst it)) h -> NoDup (hist_toks h) ->
+  run cf fuel h final = Ok tr ->
+  at_most_once tr /\ none_after_destroy tr /\ complete_at_destroy tr.
+Proof.
+  intros Hfix Hh Hn Hrun. unfold run in Hrun.
+  assert (S : safe (let! destroyed := run_from cf fuel h in
+                    (if destroyed then ret tt else step cf fuel IDestroy final);; emit EvEnd)
+                   init_state (fun _ s => let tr := rev (st_trace s) in
+                                          at_most_once tr /\ none_after_destroy tr /\ complete_at_destroy tr)).
+  { apply safe_bind.
+    eapply safe_mono; [apply (run_from_tok cf Hfix fuel h init_state [] init_inv Hh)|].
+    - rewrite app_nil_r. apply init_tokinv. exact Hn.
+    - intros d s1 H1. apply safe_bind. destruct d.
+      + apply safe_ret. apply safe_emit. apply (done_final s1 H1).
+      + destruct H1 as [I1 T1].
+        eapply safe_mono; [apply (destroy_step_tok cf Hfix fuel final s1 [] I1 T1)|].
+        intros [] s2 D2. apply safe_emit. apply (done_final s2 D2). }
+  unfold safe in S.
+  destruct ((let! destroyed := run_from cf fuel h in
+             (if destroyed then ret tt else step cf fuel IDestroy final);; emit EvEnd) init_state)
+    as [[a s']|e|k']; try discriminate.
+  inversion Hrun; subst. exact S.
+Qed.
+
+(* exactly once at any quiescent point of a history (no query is linked): every token
+   requested so far has had exactly as many callbacks as requests, and never more on the way *)
+Theorem run_from_quiescent cf fuel h s :
+  cf_fix cf = all_fixed -> Forall (fun it => nohost_input (fst it)) h -> NoDup (hist_toks h) ->
+  run_from cf fuel h init_state = Ok (false, s) -> linked s = [] ->
+  (forall t, count_cb (st_trace s) t = count_req (st_trace s) t) /\ at_most_once (rev (st_trace s)).
+Proof.
+  intros Hfix Hh Hn Hrun El.
+  pose proof (run_from_tok cf Hfix fuel h init_state [] init_inv Hh) as S.
+  rewrite app_nil_r in S. specialize (S (init_tokinv _ Hn)).
+  unfold safe in S. rewrite Hrun in S. simpl in S. destruct S as [I [H1 H2 H3 H4 H5]].
+  split; [|exact H3].
+  intros t. rewrite count_perm_cb, count_perm_req.
+  rewrite (held_nil s El) in H2. simpl in H2. rewrite app_nil_r in H2.
+  symmetry. apply Permutation_count_occ. exact H2.
+Qed.
